@@ -5,6 +5,7 @@ import (
 	"crypto/sha256"
 	"encoding/hex"
 	"fmt"
+	"math/big"
 	"sort"
 	"sync"
 	"time"
@@ -29,6 +30,35 @@ type PreParams struct {
 // the generated numbers.
 func newPreParams(data *keygen.LocalPreParams) *PreParams {
 	return &PreParams{data, time.Now().UTC()}
+}
+
+// isComplete checks whether every value of the pre-parameters is set to
+// a positive number. Unmarshal initializes all the fields, so the nil checks
+// done by tss-lib validation pass even for pre-parameters decoded from an empty
+// or incomplete file.
+func (pp *PreParams) isComplete() bool {
+	if pp.data == nil || pp.data.PaillierSK == nil {
+		return false
+	}
+
+	for _, value := range []*big.Int{
+		pp.data.PaillierSK.N,
+		pp.data.PaillierSK.LambdaN,
+		pp.data.PaillierSK.PhiN,
+		pp.data.NTildei,
+		pp.data.H1i,
+		pp.data.H2i,
+		pp.data.Alpha,
+		pp.data.Beta,
+		pp.data.P,
+		pp.data.Q,
+	} {
+		if value == nil || value.Sign() <= 0 {
+			return false
+		}
+	}
+
+	return true
 }
 
 // tssPreParamsPool is a pool holding TSS pre parameters. It autogenerates
@@ -222,7 +252,13 @@ func (p *preParamsStorage) ReadAll() ([]*PersistedPreParams, error) {
 			// Validate recovered PreParams with the same function that is used
 			// in tss-lib and causes panic if the PreParams fail the validation.
 			// Ref: https://github.com/bnb-chain/tss-lib/blob/cbfa6cf63f18f471429eaab0a5f51cf72b7e9df8/ecdsa/keygen/local_party.go#L71-L73
-			if !persistedPreParams.Data.data.ValidateWithProof() {
+			//
+			// The tss-lib validation checks only if the fields are not nil
+			// and unmarshalling sets all of them, even for an empty file
+			// that could be left by a crash in the middle of saving. Make
+			// sure all the values are really there.
+			if !persistedPreParams.Data.data.ValidateWithProof() ||
+				!persistedPreParams.Data.isComplete() {
 				p.logger.Errorf(
 					"PreParams recovered from file [%s] in directory [%s] failed validation",
 					descriptor.Name(),
